@@ -23,6 +23,8 @@ import (
 	"github.com/theory/sqljson/path/types"
 )
 
+type implPath = path.Path
+
 // ---------- decoding of case inputs ----------
 
 func decodeDoc(text, num string) (any, error) {
